@@ -191,7 +191,8 @@ BridgeOK(s, o, ob) ==
         a == Answer(s, "bridge", o.cred, o.ep, m)
         none == /\ ~ob.ok /\ ob.inv = 0 /\ ob.evd = 0 /\ ob.fedall = 0 /\ ob.fedone = 0 /\ ob.feddrv = 0
     IN /\ ob.ec # "panic"
-       /\ CASE o.kf = "empty" -> none /\ ob.ec = "notfound"
+       /\ CASE o.kf = "weird" -> TRUE      \* odd keys: only "the call returns" is claimed (P5)
+            [] o.kf = "empty" -> none /\ ob.ec = "notfound"
             [] o.kf = "escape" -> none
             [] o.ch \in {"putother", "putwbad"} -> none
             [] a.st = -1 -> none
